@@ -737,6 +737,19 @@ impl<'c, 'd> Gen<'c, 'd> {
                 } else if stars == 1 {
                     out.push((s.clone(), false, 2));
                 }
+                // the mapped call gives an array of arrays: two-step paths over a call result
+                // (`f(a[*])[n][m]`, `f(a[*])[*][m]`, `f(a[*])[n][*]`, `f(a[*])[*][*]`)
+                if mappable {
+                    match stars {
+                        0 => out.push((s.clone(), true, 3)),
+                        1 => {
+                            out.push((s.clone(), true, 4));
+                            out.push((s.clone(), true, 5));
+                        }
+                        2 => out.push((s.clone(), true, 6)),
+                        _ => {}
+                    }
+                }
             }
         }
         out
@@ -795,7 +808,11 @@ impl<'c, 'd> Gen<'c, 'd> {
         let path = match pk {
             0 => vec![],
             1 => vec![self.gen_idx()],
-            _ => vec![MIdx::Each],
+            2 => vec![MIdx::Each],
+            3 => vec![self.gen_idx(), self.gen_idx()],
+            4 => vec![MIdx::Each, self.gen_idx()],
+            5 => vec![self.gen_idx(), MIdx::Each],
+            _ => vec![MIdx::Each, MIdx::Each],
         };
         Some(MIndex { base: MBase::Call { func: s.name.to_string(), args }, path })
     }
